@@ -238,6 +238,13 @@ def run(cx):
     # width cannot hold goes out as 0, the dependent packet is delivered first and the parent is dropped as surpassed
     from bits import check_headers
     check_headers(cx, "C09.t", "C09.u")
+    # the flush waits for acknowledgement: a receiver that refunds less than it charged turns a later Reliable packet
+    # into a dud while its frames are still acknowledged; and the server's disconnect retries run on the timer that was
+    # scheduled for them
+    from props.C06 import inst_release
+    inst_release(cx, "C09.v")
+    from props.C17 import timers_scheduled
+    timers_scheduled(cx, "C09.w")
     # a resend entry must name the frame its datagram actually left in: a fragment closed into the previous frame
     # but logged under the next one is never resent when that frame is lost, and the flush never completes
     from props.shared import resend_ref_in_own_frame
